@@ -32,6 +32,7 @@ type runOpts struct {
 	abruptEOF   bool          // the client goes away right after the last step, without waiting for quiescence
 	noProbe     bool          // do not append the final liveness probe
 	preDelay    time.Duration // wait this long after the connection is up before the first message (init racing the timer)
+	wire        bool          // serve the connection with the repository's websocket.Client over an in-memory net.Conn (wire.go)
 }
 
 const (
@@ -43,7 +44,7 @@ const (
 
 // traceEv is one entry of the merged trace, in the order of one logical clock (the rig mutex).
 type traceEv struct {
-	Kind   byte   // 'C' client message handed to the server, 'S' server message, 'X' server close frame, 'D' server disconnect without a frame, 'Z' client went away
+	Kind   byte   // 'C' client message handed to the server, 'S' server message, 'X' server close frame, 'D' server disconnect without a frame, 'Z' client went away, 'B' (wire mode) the server's byte stream stopped being a sequence of frames
 	Step   int    // 'C': index of the step in the word (len(word) for the final probe)
 	Sym    sym    // 'C'
 	Raw    string // message bytes
@@ -63,6 +64,8 @@ func (e traceEv) String() string {
 		return "S <disconnect>"
 	case 'Z':
 		return "C <gone>"
+	case 'B':
+		return "S <bytes that are no WebSocket frame: " + e.Raw + "…>"
 	}
 	return "?"
 }
@@ -115,6 +118,12 @@ type rig struct {
 	lateCloses     int
 	startT         time.Time
 	ackT           time.Time
+
+	// wire mode
+	wbuf       []byte // bytes written by the server and not yet parsed into frames
+	corrupt    bool
+	connShut   bool // the server closed the net.Conn
+	clientGone bool
 
 	ops         map[int]*opRec
 	unknownGets int
@@ -491,6 +500,11 @@ func runScript(p proto, word []sym, sc schedule, o runOpts) *runResult {
 	errCh := make(chan error, 1)
 	a, b := net.Pipe()
 	defer b.Close()
+	if o.wire {
+		hopts.CustomClient = nil
+		_ = a.Close()
+		a = &fakeConn{r: r}
+	}
 	gone := make(chan struct{})
 	r.startT = time.Now()
 	go func() {
